@@ -1,6 +1,7 @@
 package props
 
 import (
+	"fmt"
 	"testing"
 
 	"github.com/jamespfennell/gtfs"
@@ -223,4 +224,67 @@ func propC02(t *rapid.T) {
 		c02Rec.NontrivialCase(vt.Fingerprint(c), func() any { return c })
 	}
 	vt.Run(t, c02Rec, c, checkC02)
+}
+
+// TestC02Large: messages with thousands to hundreds of thousands of trips and vehicles, of stop time updates (more than 65,536
+// arrival / departure times in one message), of selectors in one alert or of alerts - beyond 16-bit counters and any block
+// size - against the same reference transcription. Every (kind, size) combination runs in every tier (rapid.checks cases each).
+func TestC02Large(t *testing.T) {
+	kinds := []string{"trips+vehicles", "stop-time-updates", "selectors", "alerts"}
+	sizes := [][]int{{9000, 70000}, {20000, 140000, 300000}, {20000, 70000}, {9000, 70000}}
+	for what := range kinds {
+		for _, n := range sizes[what] {
+			what, n := what, n
+			t.Run(fmt.Sprintf("%s-%d", kinds[what], n), func(outer *testing.T) {
+				fail := ""
+				defer func() {
+					if fail != "" {
+						outer.Fatalf("%s", fail)
+					}
+				}()
+				rapid.Check(outer, func(t *rapid.T) {
+					zone := rapid.SampledFrom(rgen.Zones).Draw(t, "zone")
+					o := rgen.DefaultGenOpts(zone)
+					o.NoPartialDescriptors, o.NoSizeClasses = true, true
+					switch what {
+					case 0:
+						o.MaxTrips, o.MaxVehicles, o.MinTrips, o.MinVehicles = n, n, n, n
+						o.MaxSTU, o.MaxAlerts = 1, 1
+					case 1:
+						o.MaxTrips, o.MinTrips, o.MaxSTU, o.MinSTU = 3, 2, n/2, n/2
+					case 2:
+						o.MaxAlerts, o.MinAlerts, o.MaxSelectors, o.MinSelectors = 1, 1, n, n
+					default:
+						o.MaxAlerts, o.MinAlerts, o.MaxSelectors = n, n, 1
+					}
+					m, info := rgen.GenMsg(t, o)
+					times := 0
+					for i := range m.Entities {
+						if tu := m.Entities[i].TU; tu != nil {
+							for _, s := range tu.STUs {
+								if s.Arr != nil && s.Arr.Time != nil {
+									times++
+								}
+								if s.Dep != nil && s.Dep.Time != nil {
+									times++
+								}
+							}
+						}
+					}
+					c := CaseRT{Zone: zone, Msg: m}
+					c.Env = genEnv(t)
+					c02Rec.Eval(fmt.Sprintf("large:%s>=%d", kinds[what], n))
+					if times > 65536 {
+						c02Rec.Class("large:stop-time-event-times>65536")
+					}
+					c02Rec.NontrivialCase(vt.Fingerprint([]any{zone, n, what, len(m.Entities), info.Trips, times}), func() any {
+						return map[string]any{"zone": zone, "entities": len(m.Entities), "size": n, "of": kinds[what], "stop_time_event_times": times}
+					})
+					if msg := vt.Try(c02Rec, c, checkC02); msg != "" && fail == "" {
+						fail = msg
+					}
+				})
+			})
+		}
+	}
 }
